@@ -301,3 +301,10 @@ Definition reuse_stale (k : nat) (f : bytes -> bytes) (q : bytes) : outcome * tc
   | (Retry.FErr, n) => (Err e_closed, mkEff false 0 (repeat q n))
   | (_, _) => (Err e_refused, mkEff false 0 [])
   end.
+
+(** * Re-sent UDP queries (exchange(), the 1 s [resend] ticker)
+
+    Every datagram of one exchange, the first and each re-send, is produced by
+    [writeQuery(q, assignedQid)]: the same bytes under the same wire id. *)
+Definition udp_sends (q : bytes) (qid : N) (n : nat) : list bytes :=
+  repeat (udp_wire_query q qid) n.
